@@ -281,6 +281,10 @@ type Decoder struct{ dec *hpack.Decoder }
 
 func NewDecoder() *Decoder { return &Decoder{dec: hpack.NewDecoder(4096, nil)} }
 
+// NewDecoderSize returns a decoder whose dynamic table is limited to n bytes (what a client that advertised
+// SETTINGS_HEADER_TABLE_SIZE = n uses).
+func NewDecoderSize(n uint32) *Decoder { return &Decoder{dec: hpack.NewDecoder(n, nil)} }
+
 func (d *Decoder) Decode(block []byte) ([]HF, error) {
 	fs, err := d.dec.DecodeFull(block)
 	var out []HF
